@@ -3,7 +3,7 @@
 From Coq Require Import String NArith ZArith List Bool Lia PeanoNat.
 From V Require Import Base.Bytes TLS.TlsModel gen.CtTypes
   CT.Rfc6962Spec CT.Rfc6962Proofs CT.CtFuncs X509.Der X509.PrecertModel X509.PrecertProofs
-  CTFE.AddChainModel CTFE.AddChainSpec CTFE.AddChainCodec CTFE.AddChainStep CTFE.AddChainHistory CTFE.AddChainFinding.
+  CTFE.AddChainModel CTFE.AddChainSpec CTFE.AddChainCodec CTFE.AddChainStep CTFE.AddChainHistory CTFE.AddChainFinding CTFE.AddChainDecode.
 Import ListNotations.
 Local Open Scope N_scope.
 
@@ -77,6 +77,16 @@ Lemma T_sct_bytes before s after r :
 Proof.
   intros Hn. destruct (sct_at H sign current_guard cfg before s after r Hn) as (_ & _ & _ & Hb & Hl).
   rewrite <- (T_id before s after r Hn). auto.
+Qed.
+
+Lemma T_decode before s after r :
+  issued_at_pos before s after (Issued r) ->
+  exists leaf_value,
+    raw_log_entry_from_leaf (l_value (i_queued r)) (l_extra (i_queued r)) =
+      Ok (leaf_value, asn1cert (s_leaf s), VList (map asn1cert (map c_der (s_rest s)))).
+Proof.
+  intros Hn. destruct (decode_at H sign current_guard cfg before s after r Hn) as (e & _ & Hd).
+  eexists. exact Hd.
 Qed.
 
 Lemma T_no_panic subs s o : In (s, o) (snd (run H sign current_guard cfg subs)) -> o <> OPanic.
